@@ -50,6 +50,9 @@ def main():
     out.flush()
     os.fsync(out.fileno())
 
+  import faulthandler
+
+  faulthandler.enable()  # on SIGSEGV/SIGABRT/SIGILL the Python stack (most recent call first) goes to stderr
   setup_warp(mode)
   from mon import core
 
